@@ -193,7 +193,8 @@ fn rand_addr(g: &mut Rng, for_string: bool) -> J {
     let mut a = match g.below(if cfg!(feature = "vsock") { 8 } else { 7 }) {
         0 | 1 | 2 => json!({"transport": "unix", "kind": g.pick_str(&["path", "abstract", "dir", "tmpdir"]), "value": jbytes(&rand_bytes(g, false))}),
         3 | 4 => {
-            let n = g.below(4);
+            // now and then enough arguments for two-digit keys (argv10 ...)
+            let n = if g.chance(1, 6) { 9 + g.below(6) } else { g.below(4) };
             let args: Vec<J> = (0..n).map(|_| jbytes(&rand_bytes(g, false))).collect();
             let mut a = json!({"transport": "unixexec", "path": jbytes(&rand_bytes(g, false)), "args": args});
             if g.chance(1, 2) {
